@@ -33,6 +33,14 @@ template<glm::length_t L> static void pv(glm::vec<L, float, glm::defaultp> const
 template<glm::length_t C, glm::length_t R> static void pm(glm::mat<C, R, float, glm::defaultp> const& m) { for (glm::length_t c = 0; c < C; ++c) for (glm::length_t r = 0; r < R; ++r) pf(m[c][r]); }
 static void pq(glm::quat const& q) { pf(q.w); pf(q.x); pf(q.y); pf(q.z); }
 #define OP(name, body) { std::printf("%s %d =", name, i); body; std::printf("\n"); }
+// integer functions on the other element widths (the x86 branch of sign / abs / min / max / mix is selected by GLM_ARCH, a non-semantic setting)
+static void int_widths(int i)
+{
+	static const long long sp[] = { 0, 1, -1, 2147483647ll, 2147483648ll, 2147483649ll, 4294967295ll, 4294967296ll, -2147483648ll, -2147483649ll, 9223372036854775807ll, -9223372036854775807ll };
+	long long x = (i % 3) ? sp[rnd() % 12] : (long long)rnd(), y = (long long)rnd() >> (rnd() % 60); glm::i64vec2 xv(x, y); glm::i16vec3 sv((glm::int16)x, (glm::int16)y, (glm::int16)-7); glm::i8vec2 bv((glm::int8)x, (glm::int8)y);
+	std::printf(" %lld %lld %lld %lld %lld %lld", (long long)glm::sign(x), (long long)glm::sign(xv).x, (long long)glm::sign(xv).y, (long long)glm::abs(x == (-9223372036854775807ll - 1) ? 0 : x), (long long)glm::min(x, y), (long long)glm::max(xv, glm::i64vec2(y, x)).x);
+	std::printf(" %d %d %d %d %d %d %d", (int)glm::sign(sv).x, (int)glm::sign(sv).y, (int)glm::abs(sv).z, (int)glm::sign(bv).x, (int)glm::min(sv, glm::i16vec3(3)).y, (int)glm::clamp(bv, glm::i8vec2(-5), glm::i8vec2(5)).x, (int)glm::mix(sv, glm::i16vec3(9), glm::bvec3(x & 1, y & 1, true)).x);
+}
 int main(int argc, char** argv)
 {
 	uint64_t seed = argc > 2 ? std::strtoull(argv[2], 0, 10) : 1; bool thorough = argc > 3 && std::string(argv[3]) == "thorough"; int n = thorough ? 20000 : 1500; st = seed;
@@ -59,6 +67,8 @@ int main(int argc, char** argv)
 		OP("ulp", if (std::isfinite(a)) { pf(glm::nextFloat(a)); pf(glm::prevFloat(a)); pf(glm::nextFloat(a, 3)); std::printf(" %d %d", glm::floatDistance(a, glm::nextFloat(a, 5)), (int)glm::equal(a, glm::nextFloat(a, 2), 3)); })
 		OP("ulp_double", for (double da : { (double)a, (double)a * 1e-300, (double)a * 1e300, (double)a * 1e-42 }) if (std::isfinite(da)) { pd(glm::nextFloat(da)); pd(glm::prevFloat(da)); pd(glm::prevFloat(da, 2)); std::printf(" %lld", (long long)glm::floatDistance(da, glm::nextFloat(da, 4))); })
 		OP("integer", { int x = (int)(rnd() & 0xffffff) - 0x7fffff; unsigned u = (unsigned)rnd(); std::printf(" %d %d %d %d %x %x %d %x %d %d", glm::bitCount(u), glm::findLSB(u), glm::findMSB(x), glm::abs(x), glm::bitfieldReverse(u), glm::bitfieldExtract(u, 3, 7), glm::sign(x), glm::bitfieldInsert(u, 5u, 4, 9), glm::ceilMultiple(x, 7), (int)glm::isPowerOfTwo(x)); })
+		// integer functions on the other element widths (the x86 branch of sign / abs / min / max / mix is selected by GLM_ARCH, a non-semantic setting)
+		OP("integer_widths", int_widths(i))
 		OP("color", pv(glm::convertLinearToSRGB(glm::fract(v3))); pv(glm::convertSRGBToLinear(glm::fract(v3))); pv(glm::rgbColor(glm::hsvColor(glm::fract(v3) + 0.01f))))
 		OP("double", pd(glm::round((double)a * 1.000001)); pd(glm::mix((double)a, (double)b, 0.3)); pd(glm::length(glm::dvec3(v3))); pd(glm::log2(std::fabs((double)a) + 0.1)); pd(glm::asinh((double)a)); pd(glm::fmin((double)a, (double)b, (double)c)))
 		OP("ctor", { glm::vec4 z(1.f); glm::vec4 y(v3, 2.f); glm::mat3 m(2.f); glm::quat r = glm::quat::wxyz(1.f, 0.f, 0.f, 0.f); pv(z + y); pm(m); pq(r); std::printf(" %d %d %d", (int)z.length(), (int)m.length(), (int)r.length()); })
